@@ -17,10 +17,10 @@ from vf.xlate import BACKENDS, translate
 
 RULE = (
     "case = (back end, generated host query, graft kind, graft position = index of the numeric / column production it replaces). asserted "
-    "catalogue: operators // << >> | ^ & @ ~, comparison chains, in / is, Aggregate(f) and Aggregate(f, g), slices, + - * / % ** unary and "
-    "comparison with a collection operand, raw-object output columns (collection, singleton, First() of objects, object in a tuple), sequence "
+    "catalogue: operators // << >> | ^ & @ ~, comparison chains, in / is, Aggregate(f) and Aggregate(f, g), Sum / Max / Min with an argument, accumulators of one or three parameters, slices, + - * / % ** unary and "
+    "comparison with a collection operand, math functions of a collection, raw-object output columns (collection, singleton, First() of objects, object in a tuple), sequence "
     "operators on a scalar, a member or method of a number / bool, arithmetic with a string or an object operand, wrong number of column names, getAttribute, math.sin module calls, keyword arguments (silently dropped before the fix), metadata without / with unknown "
-    "metadata_type, with a missing or unknown key. non-trivial = graft at lambda depth >= 2 or behind a rewrite (First-method, fused "
+    "metadata_type, with a missing, unknown or misspelt key, with a string where a list of strings is documented, with both return_type and return_type_element. non-trivial = graft at lambda depth >= 2 or behind a rewrite (First-method, fused "
     "Select/Where, ifexp arm, and/or operand); distinct by (graft kind, depth, host shape)."
 )
 
@@ -34,9 +34,12 @@ NUM_GRAFTS = [
     "getAttribute", "kwarg-method", "kwarg-function", "kwarg-aggregate", "kwarg-collection",
     "num-member", "num-method", "bool-member", "bool-method", "num-member-chain",
     "num-op-str", "str-op-num", "num-op-obj", "obj-op-num", "agg-obj",
+    "sum-selector", "max-arg", "min-selector", "agg-acc1", "agg-acc3",
+    "seq-fn-pow", "seq-fn-sqrt", "seq-fn-abs", "seq-fn-fmax",
 ]
 COL_GRAFTS = ["raw-collection", "raw-singleton", "raw-first-object", "raw-object-var", "raw-objvec"]
-TOP_GRAFTS = ["names-too-few", "names-too-many", "md-no-type", "md-unknown-type", "md-missing-key", "md-unknown-key"]
+TOP_GRAFTS = ["names-too-few", "names-too-many", "md-no-type", "md-unknown-type", "md-missing-key", "md-unknown-key", "md-unknown-key-cppfn", "md-string-for-list",
+              "md-both-return-types"]
 EXTENDED = ["kwarg", "set", "genexp", "starred", "walrus", "fstring", "lambda-arity"]  # collect-only, not asserted
 
 
@@ -90,6 +93,15 @@ class GraftGen(QGen):
                 s_ = self._collection_text(scope)
                 return f"({s_}.Aggregate({M}.5, lambda acc, v: v) + 1)" if s_ else None
             return f"((({t}) + {M}.5) {op} {o})" if k == "num-op-obj" else f"({o} {op} (({t}) + {M}.5))"
+        if k in ("sum-selector", "max-arg", "min-selector", "agg-acc1", "agg-acc3"):
+            self.noflat += 1
+            os_ = self.numseq(scope, 0)
+            self.noflat -= 1
+            if os_ is None:
+                return None
+            return {"sum-selector": f"({os_[0]}.Sum(lambda sx: sx * {M}) + {t})", "max-arg": f"({os_[0]}.Max({M}) + {t})",
+                    "min-selector": f"({os_[0]}.Min(lambda sx: sx - {M}) + {t})", "agg-acc1": f"({os_[0]}.Aggregate({M}.5, lambda a1: a1 + 1) + {t})",
+                    "agg-acc3": f"({os_[0]}.Aggregate({M}.5, lambda a1, a2, a3: a1 + a2) + {t})"}[k]
         if k == "kwarg-function":
             return f"sin({t}, extra={M})"
         if k == "kwarg-method":
@@ -117,6 +129,9 @@ class GraftGen(QGen):
                 if os_ is None:
                     return None
                 return f"{os_[0]}.Aggregate(lambda a, v: a + v + {MARK})" if k == "agg-1" else f"{os_[0]}.Aggregate(lambda v: v, lambda a, v: a + v + {MARK})"
+            if k.startswith("seq-fn-"):
+                return {"seq-fn-pow": f"(pow({s}, 2) + {MARK})", "seq-fn-sqrt": f"(sqrt({s}) + {MARK})", "seq-fn-abs": f"(abs({s}) + {MARK})",
+                        "seq-fn-fmax": f"(fmax({MARK}, {s}) + {t})"}[k]
             extra = {"seq-negneg": f"((- -{s}).Count() + {MARK})", "seq-posneg": f"((+ -{s}).Count() + {MARK})", "seq-notnot": f"((not not {s}) if {t} > {MARK} else 0)",
                      "seq-neg4": f"((- - - -{s}).Count() + {MARK})", "seq-cmp-rhs": f"({MARK} < {s})", "seq-sub-rhs": f"({MARK} - {s})"}
             if k in extra:
@@ -229,10 +244,24 @@ def cases(draw, backend):
                 if md["metadata_type"] == "inject_code":
                     return {"backend": backend, "kind": kind, "text": None}
                 del md[draw(st.sampled_from(req))]
+            elif kind == "md-string-for-list":
+                # a plain string where the README documents a list of strings (it would be taken apart into characters)
+                lists = {"add_job_script": ["script", "depends_on"], "add_cpp_function": ["include_files", "arguments", "code"], "inject_code": ["body_includes"],
+                         coll_md["metadata_type"]: ["include_files"]}
+                if md["metadata_type"] not in lists:
+                    md = dict(pool[draw(st.integers(1, 4))])
+                md[draw(st.sampled_from(lists[md["metadata_type"]]))] = draw(st.sampled_from(["file1.hpp", "x", "print(1)"]))
+            elif kind == "md-both-return-types":
+                md = dict(good, return_type_element="float")
+            elif kind == "md-unknown-key-cppfn":
+                # known finding: the pinned tests hand add_cpp_function a 'result' / 'return_pointer_depth' key nobody reads
+                md = dict(pool[3])
+                md[draw(st.sampled_from(["bogus", "instance_obj", "result", "includes"]))] = "x"
             else:
-                if md["metadata_type"] not in (coll_md["metadata_type"], "inject_code"):
-                    md = dict(coll_md)
-                md[draw(st.sampled_from(["bogus", "elements", "includes"]))] = "x"
+                if md["metadata_type"] == "add_cpp_function":
+                    md = dict(draw(st.sampled_from([good, coll_md, pool[2], pool[4], {"metadata_type": "define_enum", "namespace": "xAOD.Jet", "name": "Color", "values": ["Red", "Blue"]}])))
+                misspelt = {"add_method_type_info": ["deref_cnt", "tree_typ", "return_typ_collection"], "add_job_script": ["dependson", "depends"], "define_enum": ["value"]}
+                md[draw(st.sampled_from(["bogus", "elements", "includes"] + misspelt.get(md["metadata_type"], [])))] = draw(st.sampled_from(["x", 2, ["a"]]))
             pos = draw(st.sampled_from(["inner", "outer"]))
             if pos == "outer":
                 text = f"MetaData({text}, {md!r})"
@@ -294,7 +323,7 @@ def check(c):
         pkg = translate(c["text"], c["backend"])
     except Exception as e:
         return type(e).__name__
-    if c["kind"] in NUM_GRAFTS and not c["kind"].startswith("kwarg"):
+    if c["kind"] in NUM_GRAFTS and not c["kind"].startswith("kwarg") and c["kind"] not in ("sum-selector", "max-arg", "min-selector"):
         # did the graft reach the translator at all?  func_adl's normalisations (the executor's first step)
         # legitimately drop values nothing uses (Select(f).Select(lambda v: 0), identity Selects)
         from vf.xlate import make_executor
@@ -318,6 +347,10 @@ def worker(payload):
     stats = Stats()
 
     def body(c):
+        if c["kind"] == "md-unknown-key-cppfn":
+            # recorded finding (known_findings.txt; regress/C09-md-unknown-key-cppfn.json shows it on every run): excluded from the search, counted
+            stats.excluded["md-unknown-key-cppfn"] += 1
+            raise Discard("recorded finding")
         exc = check(c)
         depth = c.get("depth", 0)
         rewrites = [l for l in c.get("labels", []) if l in ("First", "ifexp", "and", "or", "Where-inner", "Select-numbers", "Where-numbers", "Aggregate", "Sum")]
